@@ -103,6 +103,12 @@ func Model(r *rand.Rand, opt ModelOpt) *openfgav1.AuthorizationModel {
 	for i := 0; i < nObj; i++ {
 		objs = append(objs, fmt.Sprintf("o%d", i))
 	}
+	collide := opt.Conditions && r.Intn(12) == 0
+	if collide && nTerm >= 2 {
+		// a type named like another type followed by a condition name: keys built by gluing label and condition
+		// together without a separator cannot tell `u0 with c1` from `u0c1`
+		terms[nTerm-1] = terms[0] + "c1"
+	}
 	m := &openfgav1.AuthorizationModel{SchemaVersion: "1.1"}
 	for _, t := range terms {
 		m.TypeDefinitions = append(m.TypeDefinitions, &openfgav1.TypeDefinition{Type: t})
@@ -111,6 +117,9 @@ func Model(r *rand.Rand, opt ModelOpt) *openfgav1.AuthorizationModel {
 	relNames := []string{}
 	for i := 0; i < nRel; i++ {
 		relNames = append(relNames, fmt.Sprintf("r%d", i))
+	}
+	if collide && nRel >= 2 {
+		relNames[nRel-1] = relNames[0] + "c2" // likewise for `o0#r0 with c2` and `o0#r0c2`
 	}
 	if r.Intn(3) == 0 {
 		g.tuplesets = []string{"p", "q"} // a second tupleset with its own parent types
@@ -175,9 +184,9 @@ func Model(r *rand.Rand, opt ModelOpt) *openfgav1.AuthorizationModel {
 		m.TypeDefinitions = append(m.TypeDefinitions, td)
 	}
 	if opt.Hazards && r.Intn(2) == 0 {
-		g.plant(m, terms, objs, relNames, r.Intn(18))
+		g.plant(m, terms, objs, relNames, r.Intn(19))
 	} else if opt.Shapes && r.Intn(4) == 0 {
-		g.plant(m, terms, objs, relNames, []int{12, 13, 14, 15, 17}[r.Intn(5)])
+		g.plant(m, terms, objs, relNames, []int{12, 13, 14, 15, 17, 18}[r.Intn(6)])
 	}
 	if opt.PureCycles && r.Intn(3) == 0 && len(relNames) >= 2 {
 		// a cycle of pure computed relations of length 2..len
@@ -400,6 +409,31 @@ func (g *mgen) plant(m *openfgav1.AuthorizationModel, terms, objs, rels []string
 			} else {
 				set(a, Diff(TTU(b, "p"), TTU(b, "q")))
 			}
+		}
+	case 18: // VALID: a tupleset naming its parent type only through a wildcard and / or a userset restriction
+		if len(objs) >= 2 && a != b {
+			o2 := objs[(r.Intn(len(objs)-1)+1+indexOf(objs, o))%len(objs)]
+			refs := []*openfgav1.RelationReference{RefWild(o2)}
+			switch r.Intn(3) {
+			case 1:
+				refs = []*openfgav1.RelationReference{{Type: o2, RelationOrWildcard: &openfgav1.RelationReference_Relation{Relation: b}}}
+			case 2:
+				refs = append(refs, &openfgav1.RelationReference{Type: o2, RelationOrWildcard: &openfgav1.RelationReference_Relation{Relation: b}})
+			}
+			set("p", This(), refs...)
+			for _, td2 := range m.TypeDefinitions {
+				if td2.GetType() == o2 {
+					td2.Relations[b] = This()
+					if td2.Metadata == nil {
+						td2.Metadata = &openfgav1.Metadata{}
+					}
+					if td2.Metadata.Relations == nil {
+						td2.Metadata.Relations = map[string]*openfgav1.RelationMetadata{}
+					}
+					td2.Metadata.Relations[b] = &openfgav1.RelationMetadata{DirectlyRelatedUserTypes: []*openfgav1.RelationReference{RefType(u)}}
+				}
+			}
+			set(a, Union(This(), TTU(b, "p")), RefType(u1))
 		}
 	case 15: // VALID: nested operators mixing all three kinds over one multi-type direct assignment
 		if a != b {
